@@ -75,6 +75,14 @@ def plan(tier, seed):
     for n in range(2, nm + 1):
         for pi, par in enumerate(E2.parent_vectors(n)):
             tasks.append(("cis-trans", ("marks", n, pi)))
+    nm2 = 5 if thorough else 4
+    scopes.append({"name": "cis-trans-two-ring-bonds", "n_max": nm2, "r": 2, "edge_symbols": ["", "=", "/"],
+                   "ring_symbols(open,close)": [("", ""), ("/", ""), ("\\", ""), ("", "/")], "digit_orders": "all",
+                   "desc": "two ring bonds, each with and without a mark on either digit, every order of the digits at an atom: a mark "
+                           "belongs to the digit it is written before", "table": RELAXED})
+    for n in range(3, nm2 + 1):
+        for pi, par in enumerate(E2.parent_vectors(n)):
+            tasks.append(("cis-trans-two-ring-bonds", ("marks2", n, pi)))
     return {"scopes": scopes, "tasks": tasks, "bounds": {"one": [n1, r1], "two": [n2, r2], "marks_n": nm},
             "weight": lambda t: t[1][1]}
 
@@ -235,6 +243,22 @@ def run(task):
                         at[i] = tag
                         smi = E2.write(n, par, rings, at, bt, digit_slot=ds, paren_last=pl)
                         last = (smi, check(smi, RELAXED, r, tolerant=True))
+    elif kind == "marks2":
+        _, n, pi = arg
+        par = list(E2.parent_vectors(n))[pi]
+        at = ["C"] * n
+        RM = [("", ""), ("/", ""), ("\\", ""), ("", "/")]
+        for rings in E2.ring_sets(n, par, 2, 2):
+            r.states += 1
+            for dp in E2.digit_orders(rings):
+                for bt in itertools.product(["", "=", "/"], repeat=n - 1):
+                    if "=" not in bt:
+                        continue
+                    for r1, r2 in itertools.product(RM, repeat=2):
+                        if r1 == r2 == ("", ""):
+                            continue
+                        smi = E2.write(n, par, rings, at, [""] + list(bt), ring_tok={rings[0]: r1, rings[1]: r2}, digit_perm=dp)
+                        last = (smi, check(smi, RELAXED, r))
     elif kind == "acyc":
         for n in range(1, arg[1] + 1):
             for par in E2.parent_vectors(n):
